@@ -22,7 +22,7 @@ RULE = ("C01's exhaustive token spaces and generated scripts/mutants, plus Hypot
         "truncations), identifiers colliding with every name in dir(sievelib.commands), str and bytes inputs, fresh and long-lived Parser objects, "
         "parse_file on files with byte order marks / other encodings / cut code units / padding, "
         "and size families for work scaling (Python line events at 3 sizes; CPU time at 0.1 MB vs 0.8 MB); oracle: no exception, lexer steps <= 2*len+16, result is True/False, "
-        "error/error_pos/result shape. Non-trivial = input is not an accepted script (mutated, rejected or crashing); "
+        "error/error_pos/result shape; generated scripts and mutants whose string contents are format-directive look-alikes. Non-trivial = input is not an accepted script (mutated, rejected or crashing); "
         "distinct by bytes.")
 
 ERR_RE = re.compile(r"line (\d+): .", re.S)
